@@ -104,8 +104,13 @@ def install(lw):
                 circmon.report("C17", f"{name} accepted an amplitude-valued result", monitor=name + " post-condition",
                                mechanism="mapping_amplitude_accepted:" + name)
                 return res
+            before_items = ([(i, dict(self[i])) for i in self.inputs] if is_sim else dict(self))
             res = orig(self, invert)
             try:
+                after_items = ([(i, dict(self[i])) for i in self.inputs] if is_sim else dict(self))
+                if repr(after_items) != repr(before_items):
+                    circmon.report("C17", f"{name} changed the result it was applied to", monitor=name + " post-condition",
+                                   mechanism="mapping_changed_original:" + name)
                 circmon.STATS["mapping_postconditions"] += 1
                 rows = [(i, dict(self[i])) for i in self.inputs] if is_sim else [(None, dict(self))]
                 for i, row in rows:
@@ -158,8 +163,8 @@ def run(ctx):
     State = lw.State
     SR, SM = lw.emulator.results.SimulationResult, lw.emulator.results.SamplingResult
     while not ctx.out_of_time():
-        k = int(rng.integers(1, 7))
-        max_occ = int(rng.choice([1, 2, 4]))
+        k = int(rng.integers(1, 7)) if rng.random() < 0.95 else int(rng.choice([0, 9, 12]))
+        max_occ = int(rng.choice([1, 2, 4, 9]))
         n_in = int(rng.integers(1, 7))
         n_out = int(rng.integers(1, 21))
 
